@@ -249,6 +249,10 @@ TransferWithinRejected(d, r, p) ==
     /\ p \in Desc(r)
     /\ UNCHANGED vars
 
+\* WeakDom::reserve(additional): a capacity hint.  Nothing a caller can observe changes - in particular not the
+\* bookkeeping of UniqueIds, on which every later insert / clone / transfer relies.
+ReserveS(d) == root[d] # Null /\ UNCHANGED vars
+
 \* Calls outside the documented preconditions that the documentation promises to refuse with a panic and that
 \* are refused before anything is touched: the root (for a rootless DOM: Ref::none()) cannot be destroyed or moved,
 \* an instance the DOM does not hold cannot be destroyed, moved, cloned or walked from.
